@@ -150,6 +150,8 @@ impl<'a> PrettyPrinter<'a> {
         markup: Markup<'a>,
         scope: MarkupScope,
     ) -> ArenaDoc<'a> {
+        #[cfg(typstyle_verif)]
+        crate::verif_hooks::convert(crate::verif_hooks::Point::ConvertMarkup, markup.to_untyped());
         let ctx = ctx.with_mode(Mode::Markup);
 
         if is_only_one_and(markup.to_untyped().children(), |node| {
